@@ -258,9 +258,9 @@ func knownSig(check, kind, msg string) string {
 		return "sa1006-parenthesised-callee"
 	case check == "S1034" && kind == "typecheck":
 		return "s1034-assignment-to-switched-variable"
-	case check == "S1018" && kind == "behaviour":
+	case check == "S1018" && kind == "behaviour" && panicInvolved(msg):
 		return "s1018-count-or-offset-out-of-range"
-	case check == "S1001" && kind == "behaviour":
+	case check == "S1001" && kind == "behaviour" && panicInvolved(msg):
 		return "s1001-destination-shorter-than-source"
 	case check == "S1033" && kind == "behaviour":
 		return "s1033-key-evaluated-once"
@@ -295,6 +295,25 @@ func onlyRounding(msg string) bool {
 			d = -d
 		}
 		if !(d <= 1e-9*m) {
+			return false
+		}
+	}
+	return true
+}
+
+var reDiffPanic = regexp.MustCompile(`(?m)^  (original|fixed):\s+res=.*? panic=(\S+) trace=`)
+
+// panicInvolved reports whether in every difference quoted in a behaviour
+// message the original or the fixed function panics (the recorded S1018 and
+// S1001 findings are about out-of-range panics that copy does not reproduce;
+// a difference between two runs that both return normally is something else).
+func panicInvolved(msg string) bool {
+	ms := reDiffPanic.FindAllStringSubmatch(msg, -1)
+	if len(ms) == 0 || len(ms)%2 != 0 {
+		return false
+	}
+	for i := 0; i < len(ms); i += 2 {
+		if ms[i][2] == "none" && ms[i+1][2] == "none" {
 			return false
 		}
 	}
